@@ -149,6 +149,28 @@ def do_confirm(name):
     print(name, "tests_pass=%s" % ok, "demo differs in:", differs)
 
 
+def do_confirm_cmd(name, cmd):
+    """demonstrations that need their own command line (arguments, ulimit, a second build, a C driver): runs `cmd` (with {d} = the
+    seed's directory) from the root of the patched and of the pristine (SEED_PRISTINE) tree, appends both outputs to confirm.txt"""
+    d = os.path.join(SEEDED, name)
+    m = load_meta(d)
+    pristine = os.environ["SEED_PRISTINE"]
+    w, src = scratch_worktree(os.path.join(d, "patch.diff"))
+    try:
+        build_and_test(src, run_tests=False)
+        c = cmd.replace("{d}", d)
+        full = "cd %%s && (%s) 2>&1 | sed -E 's/0x[0-9a-f]{6,}|[0-9]{9,}/N/g' | tail -60 | cut -c1-300" % c
+        changed = sh(full % src, executable="/bin/bash").stdout
+        orig = sh(full % pristine, executable="/bin/bash").stdout
+    finally:
+        remove_worktree(w)
+    open(os.path.join(d, "confirm.txt"), "a").write("\n## demonstration by its own command: %s\n--- pristine tree:\n%s--- patched tree:\n%s" % (cmd, orig, changed))
+    if orig != changed:
+        m["confirmed_demo_differs"] = sorted(set(m.get("confirmed_demo_differs", []) + ["own command: " + cmd]))
+    save_meta(d, m)
+    print(name, "own command differs:", orig != changed)
+
+
 def do_check(name, checks, tier):
     d = os.path.join(SEEDED, name)
     m = load_meta(d)
@@ -183,6 +205,8 @@ if __name__ == "__main__":
         do_import(sys.argv[2], sys.argv[3], False, "3")
     elif cmd == "confirm":
         do_confirm(sys.argv[2])
+    elif cmd == "confirm-cmd":
+        do_confirm_cmd(sys.argv[2], sys.argv[3])
     elif cmd == "check":
         args = sys.argv[3:]
         tier = "quick"
